@@ -201,9 +201,13 @@ def call_cfunc(int a):
 """
 
 
-def variant(k, ctype):
-    """the same declaration NAMES in every instance, contents depend on (k, ctype)"""
+def variant(k, ctype, defs="from .defs cimport real_t, Cell"):
+    """the same declaration NAMES in every instance, contents depend on (k, ctype); every instance includes the consts.pxi
+    and cimports the defs.pxd of ITS directory (same file names everywhere, other contents)"""
     return """from g_common cimport Shared, CommonMode
+%(defs)s
+include "consts.pxi"
+
 cdef extern from *:
     \"\"\"
     enum Level { LEVEL_A%(k)d, LEVEL_B%(k)d };
@@ -276,7 +280,24 @@ def closure(x):
 def gen(n):
     for i in range(n):
         yield i + %(k)d
-""" % {"k": k, "ctype": ctype}
+
+def cell(int x):
+    cdef Cell c
+    c.v = <real_t>x
+    c.n%(k)d = clamp(x)
+    return c
+
+def real(real_t x):
+    return x + LIMIT
+""" % {"k": k, "ctype": ctype, "defs": defs}
+
+
+def consts_pxi(k):
+    return "cdef enum:\n    LIMIT = %d\ncdef inline int clamp(int x) noexcept:\n    return x if x < LIMIT else LIMIT + %d\n" % (100 + k, k)
+
+
+def defs_pxd(k, ctype):
+    return "ctypedef %s real_t\ncdef struct Cell:\n    real_t v\n    int n%d\n" % (ctype, k)
 
 
 FAMILIES = {
@@ -285,7 +306,11 @@ FAMILIES = {
     "pkg_p/shape.pyx": SHAPE, "pkg_q/shape.pyx": SHAPE,                          # same base name, same text, two packages
     "pkg_p/variant.pyx": variant(1, "long"), "pkg_q/variant.pyx": variant(2, "double"),   # same names, other contents
     "pkg_r/other.pyx": variant(1, "long"),                                        # text of pkg_p/variant under another name
-    "other.pyx": variant(2, "double"),                                            # top level vs package, same base name
+    "other.pyx": variant(2, "double", "from defs cimport real_t, Cell"),          # top level vs package, same base name
+    # files found by NAME relative to the including / cimporting module: same names, other contents per directory
+    "pkg_p/consts.pxi": consts_pxi(1), "pkg_q/consts.pxi": consts_pxi(2), "pkg_r/consts.pxi": consts_pxi(1), "consts.pxi": consts_pxi(2),
+    "pkg_p/defs.pxd": defs_pxd(1, "long"), "pkg_q/defs.pxd": defs_pxd(2, "double"), "pkg_r/defs.pxd": defs_pxd(1, "long"),
+    "defs.pxd": defs_pxd(2, "double"),
 }
 # the model's modules are groups of corpus modules compiled consecutively by the process that runs the job
 GROUP_HEAD = {"pa": ["pkg_p/shape.pyx", "pkg_p/variant.pyx", "g_names.pyx", "g_classes.pyx"],
